@@ -54,6 +54,8 @@ Pairs9 == {<<i, j>> : i \in 1..3, j \in 1..3}
 Pairs2 == {<<1, 2>>, <<3, 1>>}
 Pairs1 == {<<1, 2>>}
 Pairs0 == {}
+Idx2 == {2}
+Idx123 == {1, 2, 3}
 
 (* ---- folding: well-typed expressions of depth <= 2 over constants and three columns (int, int, str).
         The sets take a dummy argument so that TLC builds them only in the configurations that use them. ---- *)
